@@ -365,6 +365,25 @@ fn part_b(rep: &mut Report, seed: u64, index: u64) {
 // (c) the same rule through the client: descriptors carry transport hints as relying parties send them
 // ---------------------------------------------------------------------------------------------
 
+/// base64url text of `bytes` whose last symbol carries set spare bits where the length leaves any
+fn non_canonical_b64url(bytes: &[u8]) -> String {
+    const A: &[u8; 64] = b"ABCDEFGHIJKLMNOPQRSTUVWXYZabcdefghijklmnopqrstuvwxyz0123456789-_";
+    let mut s = oracle::b64url(bytes).into_bytes();
+    let spare = match bytes.len() % 3 {
+        1 => 4,
+        2 => 2,
+        _ => 0,
+    };
+    if spare > 0 {
+        if let Some(last) = s.last_mut() {
+            if let Some(v) = A.iter().position(|c| c == last) {
+                *last = A[v | ((1 << spare) - 1)];
+            }
+        }
+    }
+    String::from_utf8(s).unwrap_or_default()
+}
+
 fn hinted(id: &[u8], rng: &mut Rng) -> PublicKeyCredentialDescriptor {
     use passkey_types::webauthn::AuthenticatorTransport as T;
     let all = [T::Usb, T::Nfc, T::Ble, T::Hybrid, T::Internal];
@@ -435,6 +454,38 @@ fn part_c(rep: &mut Report, seed: u64, index: u64) {
         } else {
             let mut opts = crate::util::creation_options(Some(rp), b"same-user-handle", "n", &[8u8; 16], vec![pk_param(coset::iana::Algorithm::ES256)]);
             opts.public_key.exclude_credentials = list;
+            // a quarter of the requests arrive as JSON whose ids are base64url text as relying parties write
+            // it: not necessarily the canonical encoding (the unused low bits of the last symbol may be set)
+            if rng.chance(1, 4) {
+                if let Ok(mut v) = serde_json::to_value(&opts) {
+                    if let Some(l) = v["publicKey"]["excludeCredentials"].as_array_mut() {
+                        for d in l.iter_mut() {
+                            let bytes: Vec<u8> = d["id"].as_array().map(|a| a.iter().filter_map(|x| x.as_u64().map(|b| b as u8)).collect()).unwrap_or_default();
+                            d["id"] = json!(non_canonical_b64url(&bytes));
+                        }
+                    }
+                    // members the struct holds as None are written as null by the derive; a relying party
+                    // leaves them out
+                    fn drop_nulls(v: &mut Value) {
+                        match v {
+                            Value::Object(m) => {
+                                m.retain(|_, x| !x.is_null());
+                                m.values_mut().for_each(drop_nulls);
+                            }
+                            Value::Array(a) => a.iter_mut().for_each(drop_nulls),
+                            _ => {}
+                        }
+                    }
+                    drop_nulls(&mut v);
+                    match serde_json::from_value::<passkey_types::webauthn::CredentialCreationOptions>(v) {
+                        Ok(parsed) => {
+                            rep.count("c_requests_through_json");
+                            opts = parsed;
+                        }
+                        Err(e) => rep.violate("c: options with base64url ids whose last symbol has spare bits set do not parse", e.to_string(), case.clone()),
+                    }
+                }
+            }
             let should_exclude = nonempty && snapshot.iter().any(|c| c.rp_id == rp && ids.as_ref().unwrap().contains(&c.id));
             let res = catch(|| block_on(client.register(&origin, opts, DefaultClientData)));
             let after = rig.store.snapshot();
@@ -526,6 +577,46 @@ fn part_d(rep: &mut Report, seed: u64, index: u64) {
     }
 }
 
+// ---------------------------------------------------------------------------------------------
+// (e) the U2F entry point over the reference store: the application parameter is the relying party
+// ---------------------------------------------------------------------------------------------
+
+fn part_e(rep: &mut Report, seed: u64, index: u64) {
+    use passkey_authenticator::U2fApi;
+    use passkey_types::{ctap2::Flags, u2f};
+    let mut rng = Rng::derive(seed, "c05u2f", index);
+    let rig = Rig::ok(Disc::Full);
+    let mut auth = rig.auth(AuthCfg::default());
+    let app_a = rng.arr32();
+    let app_b = rng.arr32();
+    let handle_a = rng.bytes(rng.clone().range(1, 64));
+    let case = json!({"index": index, "part": "e", "applications": [hex_short(&app_a), hex_short(&app_b)], "key_handle_len": handle_a.len()});
+    rep.eval();
+    rep.nontrivial(fnv_str(&format!("e|{}", handle_a.len())));
+    if catch(|| block_on(auth.register(u2f::RegisterRequest { challenge: rng.arr32(), application: app_a }, &handle_a))).map_or(true, |r| r.is_err()) {
+        rep.violate("e: u2f registration failed on the reference store", String::new(), case);
+        return;
+    }
+    let mut try_auth = |application: [u8; 32], challenge: [u8; 32]| {
+        let req = u2f::AuthenticationRequest { parameter: u2f::AuthenticationParameter::EnforceUserPresence, challenge, application, key_handle: handle_a.clone() };
+        catch(|| block_on(auth.authenticate(req, 1, Flags::UP)).is_ok())
+    };
+    // the credential answers for its own application, whatever the challenge ...
+    match try_auth(app_a, rng.arr32()) {
+        Ok(true) => rep.count("e_own_application_ok"),
+        Ok(false) => rep.violate("e: u2f authentication for the credential's own application finds no credential", String::new(), case.clone()),
+        Err((sig, d)) => rep.violate(&format!("e: u2f authenticate {sig}"), d, case.clone()),
+    }
+    // ... and for no other application, not even when the challenge happens to be its application parameter
+    for (label, challenge) in [("random challenge", rng.arr32()), ("challenge = the credential's application parameter", app_a)] {
+        match try_auth(app_b, challenge) {
+            Ok(false) => rep.count("e_other_application_refused"),
+            Ok(true) => rep.violate("e: u2f assertion for one application made with a credential bound to another application", label.to_string(), case.clone()),
+            Err((sig, d)) => rep.violate(&format!("e: u2f authenticate {sig}"), d, case.clone()),
+        }
+    }
+}
+
 /// end-to-end consequence over the shipped in-memory store: credential of RP A, assertion requested for RP B
 fn part_b_e2e(rep: &mut Report, seed: u64, index: u64) {
     let mut rng = Rng::derive(seed, "c05e", index);
@@ -561,7 +652,7 @@ pub fn run(args: &Args) -> Report {
         "C05",
         &args.tier,
         args.seed,
-        "(a) get_assertion / make_credential over a reference store holding 0-4 credentials for each of 3 RPs (identical user handles) with allow/exclude lists absent, empty, hit, hit+miss, miss, ids of another RP, all reversed, proper prefix / extension of a held id, the empty id, under every store capability; (b) the same contents in MemoryStore, Option<Passkey> and their lock wrappers queried with generated (id list, RP) pairs and compared with the contract; (c) the same rule through Client::register / authenticate with descriptors carrying transport hints (absent, empty, usb+nfc, internal+hybrid, random); (d) get_assertion over a conforming store whose items are vault entries, a third of which cannot be converted into a credential; distinct by (part, store type, list class, RP, content size); non-trivial when the id list or RP id discriminates (>= 2 RPs or >= 2 credentials involved)",
+        "(a) get_assertion / make_credential over a reference store holding 0-4 credentials for each of 3 RPs (identical user handles) with allow/exclude lists absent, empty, hit, hit+miss, miss, ids of another RP, all reversed, proper prefix / extension of a held id, the empty id, under every store capability; (b) the same contents in MemoryStore, Option<Passkey> and their lock wrappers queried with generated (id list, RP) pairs and compared with the contract; (c) the same rule through Client::register / authenticate with descriptors carrying transport hints (absent, empty, usb+nfc, internal+hybrid, random); (d) get_assertion over a conforming store whose items are vault entries, a third of which cannot be converted into a credential; (e) U2F registration and authentication over the reference store with another application parameter and a challenge equal to the credential's application; distinct by (part, store type, list class, RP, content size); non-trivial when the id list or RP id discriminates (>= 2 RPs or >= 2 credentials involved)",
     );
     rep.assumptions.push("the documented contract: find_credentials returns all credentials matching the ids (when given) and the rp_id; Err(NoCredentials) is equivalent to an empty result".into());
     let only = replay_index(args);
@@ -591,6 +682,12 @@ pub fn run(args: &Args) -> Report {
         if only.map_or(true, |o| o == idx) {
             if let Err((sig, d)) = catch(|| part_d(&mut rep, args.seed, idx)) {
                 rep.violate(&format!("d: {sig}"), d, json!({"index": idx}));
+            }
+        }
+        let idx = 5_000_000 + i;
+        if i % 4 == 0 && only.map_or(true, |o| o == idx) {
+            if let Err((sig, d)) = catch(|| part_e(&mut rep, args.seed, idx)) {
+                rep.violate(&format!("e: {sig}"), d, json!({"index": idx}));
             }
         }
     }
